@@ -3,13 +3,17 @@ From Verif Require Import Json Outcome Match PatIndex State Location SysOps.
 From Verif Require Import AssocLemmas GateProofs LocSpec LocBasics LocRules LocWalk LocProofs.
 
 Definition nothing_expired_b (l : loc) (now : Z) : bool :=
-  forallb (fun kv => negb (fact_expired (snd kv) now)) (st_facts (l_state l)).
+  forallb (fun kv => negb (fact_expired (snd kv) now)) (st_facts (l_state l)) &&
+  match st_pending (l_state l) with [] => true | _ => false end.
 
 Lemma nothing_expired_dec l now : nothing_expired_b l now = true -> nothing_expired l now.
 Proof.
-  intros H id fact Hl. unfold nothing_expired_b in H. rewrite forallb_forall in H.
-  apply alookup_In in Hl. specialize (H _ Hl). cbn [snd] in H.
-  destruct (fact_expired fact now); [discriminate|reflexivity].
+  intros H. unfold nothing_expired_b in H. apply andb_true_iff in H. destruct H as [H Hp].
+  split.
+  - intros id fact Hl. rewrite forallb_forall in H.
+    apply alookup_In in Hl. specialize (H _ Hl). cbn [snd] in H.
+    destruct (fact_expired fact now); [discriminate|reflexivity].
+  - destruct (st_pending (l_state l)); [reflexivity|discriminate].
 Qed.
 
 Definition ex_loc (k : skind) : loc := mkLoc (empty_state k false) false 100.
